@@ -28,6 +28,7 @@ var indSpecs = []indSpec{
 	// symbolic real-valued settings (one query covers every value of the setting)
 	{name: "StochasticRsi2", nper: 2, nin: 1, heavy: true, c15: true, nonlin: true, qDn: 1, tDn: 2,
 		cfgQ: [][3]int{{2, 2, 0}, {3, 2, 0}}, cfgT: [][3]int{{2, 2, 0}, {3, 2, 0}, {2, 3, 0}}},
+	{name: "KeltnerChannel2", nper: 2, nin: 3, c15: true, cfgQ: [][3]int{{3, 1, 0}, {1, 3, 0}}, cfgT: [][3]int{{3, 1, 0}, {1, 3, 0}, {2, 3, 0}, {4, 2, 0}, {2, 4, 0}}},
 	{name: "EmaS", nper: 1, nin: 1}, {name: "EnvelopeSmaP", nper: 1, nin: 1, c15: true}, {name: "NviI", nper: 0, nin: 2},
 	// trend A
 	{name: "Apo", dflt: [3]int{14, 30, 0}, nper: 2, nin: 1, ordered: true}, {name: "Aroon", nper: 1, nin: 2, heavy: true, c15: true, depMinP: 2, qDn: 3, tDn: 4}, {name: "Bop", nper: 0, nin: 4, c15: true},
